@@ -102,8 +102,12 @@ class UDPListener:
                 continue
             self.log.debug('Answering UDP broadcast from: %s',
                            format_address(addr))
-            for port in self.ports:
-                self.sock.sendto(self._getMessage(port), addr)
+            try:
+                for port in self.ports:
+                    self.sock.sendto(self._getMessage(port), addr)
+            except socket.error as e:
+                # an answer which can not be sent must not stop the responder
+                self.log.debug('can not answer to %r: %r', addr, e)
 
     def shutdown(self):
         self.log.debug('shut down of discovery listener')
